@@ -38,7 +38,20 @@ PROPERTIES = {
             "elements do not contain the list separator (they could not be written on a command line otherwise)",
             "tuple destinations: every use carries at least one element (see known finding tuple-empty-use)",
         ],
-    }
+    },
+    # C04 for the fixed-size destinations of typed_arg.hpp (one of C04's anchored files): no store outside the
+    # destination.  Served besides the progargs plugin; the generator concentrates on arrays, bitsets and tuples that
+    # are driven to and beyond their capacity, with every option set (unique-data in particular).
+    "C04": {
+        "lean_module": "CelmaVerif.Props.C04c",
+        "kind": "relational",
+        "trusted": [
+            "hand-written model CelmaVerif/Model/Containers.lean (every store into the N slots / N bits is a checked "
+            "write); tied by the correspondence run of harness/containers.cpp (real Handler, ASan+UBSan: an index "
+            "outside `T[N]` / `std::array` aborts the harness)",
+        ],
+        "assumptions": ["destinations T[N], std::array<T,N>, std::bitset<N>, tuple<int,string,int> with T = int / std::string"],
+    },
 }
 
 RULE = ("a case = one configuration line plus evaluations, each on a fresh destination and Handler; one evaluation = "
@@ -78,6 +91,8 @@ def diff_is_failure(prop, p):
     fixed-size array without sort and of a bitset, where C06_array_overflow / C06_bitset_outside fix what the
     destination holds afterwards (the first N kept values / the positions given before)."""
     a, b = (p.impl or ""), (p.model or "")
+    if prop == "C04":       # memory safety: only the implementation accepting what the model refuses (a store the
+        return a.startswith("ok") and b.startswith("throw")     # model says is outside) is a failure; crashes always are
     if a.startswith("throw ") and b.startswith("throw "):
         wa, wb = a.split(" "), b.split(" ")
         if len(wa) > 2 and len(wb) > 2 and wa[1] == wb[1] == "runtime_error" and wa[2:] != wb[2:]:
@@ -428,8 +443,33 @@ def exhaustive_cases(maxlen, alphabet):
     return cases
 
 
+def capacity_case(rng, cid):
+    """a fixed-size destination driven to and beyond its capacity (C04): N-1, N, N+1, N+3 values — distinct ones,
+    and with duplicates when unique-data is on — as one list, over several uses and as free values"""
+    kind = rng.choice(list(ARR_KINDS) + ["bitset", "tuple_int_str_int"])
+    conf = random_conf(rng, kind=kind)
+    n = 3 if conf.kind == "tuple_int_str_int" else conf.n
+    lines = [conf.line()]
+    for length in (max(0, n - 1), n, n + 1, n + 3):
+        elems = gen_elems(rng, conf, length)
+        if conf.kind in ARR_KINDS:              # distinct values, so that unique-data drops nothing
+            pool = [str(x) for x in range(10, 10 + length)] if conf.kind in ARR_INT else ["v%d" % x for x in range(length)]
+            if rng.random() < 0.7:
+                elems = pool
+        lines.append("evalref " + render_cut(rng, conf, [elems], False))
+        for _ in range(2):
+            uses = random_cut(rng, elems, allow_empty_use=False)
+            lines.append("evalsame " + render_cut(rng, conf, uses, rng.random() < 0.6))
+    return Case(cid, lines)
+
+
 def generate(prop, tier, seed, scale=1):
     rng = random.Random("%s-%s" % (prop, seed))
+    if prop == "C04":
+        n = (600 if tier == "quick" else 30000) * scale
+        yield "capacity", [capacity_case(rng, "k%d" % i) for i in range(n)]
+        yield "exhaustive len<=3 over {0,1,2}", exhaustive_cases(3, ["0", "1", "2"])
+        return
     n = (2500 if tier == "quick" else 120000) * scale
     cases = []
     for i in range(n):
